@@ -157,6 +157,125 @@ def directed_pair_family(rng, max_nodes, engines=("sync", "async"), sample=None,
     return cases, len(trees)
 
 
+def history_inside_family(rng, n, engines=("sync", "async")):
+    """A compound or parallel state P with a shallow or deep history child (sometimes with a default target) whose
+    sub-states hold two leaves each; every leaf can move to its sibling (GO<i>) and can target P's history child from
+    INSIDE P (BACK<i>); the root can leave P (OUT), re-enter it by default (IN) or through its history (HIST).
+    Entry and exit markers on every state.  (The shape of former findings F34 / F21.)"""
+    from harness.am import Node
+    cases = []
+    for i in range(n):
+        tid = itertools.count(1)
+        mark = itertools.count(1)
+        nodes = [Node(0, "m", None, "compound")]
+
+        def add(parent, key, kind):
+            x = Node(len(nodes), key, parent, kind)
+            nodes.append(x)
+            nodes[parent].children.append(x.idx)
+            if not kind.startswith("hist"):
+                x.entry = [("mark", next(mark))]
+                x.exit = [("mark", next(mark))]
+            return x.idx
+        pk = ("parallel", "compound")[i % 2]
+        hk = ("hist_deep", "hist_shallow")[(i // 2) % 2]
+        top_is_p = (i // 4) % 3 == 0          # P is the machine root itself
+        if top_is_p:
+            nodes[0].kind = pk
+            p = 0
+            out_ = None
+        else:
+            p = add(0, "p", pk)
+            out_ = add(0, "out", "atomic")
+            nodes[0].initial = p
+        h = add(p, "h", hk)
+        subs = []
+        for k in rng.sample(["r1", "r2", "ar", "zr"], rng.choice([2, 3])):
+            r = add(p, k, "compound")
+            x = add(r, "x", "atomic")
+            y = add(r, rng.choice(["y", "ay"]), "atomic")
+            nodes[r].initial = x
+            subs.append((r, x, y))
+        if pk == "compound":
+            nodes[p].initial = subs[0][0]
+        if rng.random() < 0.3:
+            nodes[h].hist_default = rng.choice([y for _, _, y in subs])
+        am = AM(nodes, max_iter=10)
+        evs = []
+        for j, (r, x, y) in enumerate(subs):
+            nodes[x].on.append(("GO%d" % j, [Trans(next(tid), x, "GO%d" % j, y)]))
+            nodes[y].on.append(("GO%d" % j, [Trans(next(tid), y, "GO%d" % j, x)]))
+            nodes[x].on.append(("BACK%d" % j, [Trans(next(tid), x, "BACK%d" % j, h)]))
+            nodes[y].on.append(("BACK%d" % j, [Trans(next(tid), y, "BACK%d" % j, h)]))
+            evs += ["GO%d" % j, "BACK%d" % j]
+            if pk == "compound" and j + 1 < len(subs):
+                nodes[r].on.append(("NEXT%d" % j, [Trans(next(tid), r, "NEXT%d" % j, subs[j + 1][0])]))
+                evs.append("NEXT%d" % j)
+        if out_ is not None:
+            nodes[0].on.append(("OUT", [Trans(next(tid), 0, "OUT", out_)]))
+            nodes[0].on.append(("IN", [Trans(next(tid), 0, "IN", p)]))
+            nodes[0].on.append(("HIST", [Trans(next(tid), 0, "HIST", h)]))
+            evs += ["OUT", "IN", "HIST"]
+        runs = []
+        for _ in range(3):
+            seq = [rng.choice(evs) for _ in range(rng.randint(2, 6))]
+            runs.append(({}, [(e, "plain", j + 1) for j, e in enumerate(seq)]))
+        cases.append((am, engines[i % len(engines)], runs, None))
+    return cases
+
+
+def history_misuse_family(engines=("sync", "async")):
+    """Machines outside the side conditions of the C01 theorems (recorded findings F35-F37): `initial` naming a history
+    pseudo-state (compound parent; parallel parent whose never-recorded history is targeted), a history default target
+    that is itself a history pseudo-state, a history default target outside the history state's parent."""
+    from harness.am import Node
+    cases = []
+
+    def build(spec):
+        tid = itertools.count(1)
+        nodes = [Node(0, "m", None, "compound")]
+        idx = {"m": 0}
+
+        def add(parent, key, kind):
+            x = Node(len(nodes), key, idx[parent], kind)
+            nodes.append(x)
+            nodes[idx[parent]].children.append(x.idx)
+            idx[parent + "." + key] = x.idx
+            return x.idx
+        for parent, key, kind in spec["nodes"]:
+            add(parent, key, kind)
+        for k, v in spec.get("initial", {}).items():
+            nodes[idx[k]].initial = idx[v]
+        for k, v in spec.get("default", {}).items():
+            nodes[idx[k]].hist_default = idx[v]
+        for src, ev, tgt in spec.get("on", []):
+            nodes[idx[src]].on.append((ev, [Trans(next(tid), idx[src], ev, idx[tgt])]))
+        return AM(nodes, max_iter=8)
+    specs = []
+    for hk in ("hist_shallow", "hist_deep"):
+        # F35: initial names a history pseudo-state (compound parent)
+        specs.append((dict(nodes=[("m", "p", "compound"), ("m.p", "h", hk), ("m.p", "x", "atomic"), ("m.p", "y", "atomic")],
+                           initial={"m": "m.p", "m.p": "m.p.h"}, on=[("m.p.x", "GO", "m.p.y")]), [[], ["GO"]]))
+        # F35: a parallel parent declaring initial = its history child, never-recorded history targeted from outside
+        specs.append((dict(nodes=[("m", "a", "atomic"), ("m", "p", "parallel"), ("m.p", "h", hk), ("m.p", "r", "compound"),
+                                  ("m.p.r", "x", "atomic"), ("m.p.r", "y", "atomic")],
+                           initial={"m": "m.a", "m.p": "m.p.h", "m.p.r": "m.p.r.x"}, on=[("m.a", "GO", "m.p.h")]), [["GO"]]))
+        # F36: the default target of a history pseudo-state is a history pseudo-state
+        specs.append((dict(nodes=[("m", "a", "atomic"), ("m", "p", "compound"), ("m.p", "h", hk), ("m.p", "x", "compound"),
+                                  ("m.p.x", "h2", "hist_shallow"), ("m.p.x", "u", "atomic"), ("m.p.x", "v", "atomic"), ("m.p", "y", "atomic")],
+                           initial={"m": "m.a", "m.p": "m.p.x", "m.p.x": "m.p.x.u"}, default={"m.p.h": "m.p.x.h2"},
+                           on=[("m.a", "GO", "m.p.h")]), [["GO"]]))
+        # F37: the default target lies outside the history state's parent; targeted from inside the parent
+        specs.append((dict(nodes=[("m", "p", "compound"), ("m.p", "h", hk), ("m.p", "x", "atomic"), ("m.p", "y", "atomic"), ("m", "q", "atomic")],
+                           initial={"m": "m.p", "m.p": "m.p.x"}, default={"m.p.h": "m.q"}, on=[("m.p.x", "GO", "m.p.h")]), [["GO"]]))
+    for i, (spec, seqs) in enumerate(specs):
+        am = build(spec)
+        runs = [({}, [(e, "plain", j + 1) for j, e in enumerate(seq)]) for seq in seqs]
+        for eng in engines:
+            cases.append((am, eng, runs, None))
+    return cases
+
+
 # --------------------------------------------------------------------------
 # generic flow
 # --------------------------------------------------------------------------
